@@ -544,7 +544,7 @@ theorem pop_generic_refines (s : Store) (hg : s.Good) :
       rw [this] at s1
       rw [s1, e1]; rfl
 
-/-- the PATCHED fast path (`objCount--`, fixes/C07-pop-fastpath-objCount.diff) refines the spec's pop
+/-- the fast path of pop as it is in /repo (`objCount--`, 4d714fc) refines the spec's pop
 and keeps `Inv`. -/
 theorem pop_fast_refines (a : Dense) (h : a.Inv) (r : Dense × Bool) (hr : a.popFast true = some r) :
     (r.1.abs, r.2) = a.abs.pop ∧ r.1.Inv := by
@@ -660,7 +660,7 @@ theorem pop_fast_refines (a : Dense) (h : a.Inv) (r : Dense × Bool) (hr : a.pop
     · simp only [hw, if_true, Option.some.injEq] at hr
       subst hr; exact ⟨rfl, h⟩
 
-/-- `Array.prototype.pop` as a whole (patched fast path, bail-out to the generic path, sparse storage):
+/-- `Array.prototype.pop` as a whole (fast path, bail-out to the generic path, sparse storage):
 refines the spec's pop and keeps `Good` — so pop can be interleaved with the operations of
 `history_refines`. -/
 theorem pop_refines (s : Store) (hg : s.Good) :
@@ -698,9 +698,9 @@ theorem pop_refines (s : Store) (hg : s.Good) :
       · rw [h] at he'; exact hg.wf e he'
       · rw [h] at he'; exact hg.wf e (List.mem_of_mem_take he')
 
-/-- the code as it is today (`decr = false`) breaks `Inv` — witness of the finding
+/-- regression lemma about the code BEFORE 4d714fc (`decr = false`): it broke `Inv` — the repaired finding
 `pop-fastpath-objCount-not-decremented`: `[1,2,3].pop()` leaves `objCount = 3` with two elements. -/
-theorem pop_current_breaks_inv_witness :
+theorem pop_prefix_witness :
     let a : Dense := { values := [some (.plain 1), some (.plain 2), some (.plain 3)], cap := 3, length := 3,
                        objCount := 3, pvc := 0, lenW := true, ext := true }
     a.Inv ∧ ∀ r, a.popFast false = some r → ¬ r.1.Inv := by
